@@ -2122,6 +2122,93 @@ fn round_dlrace(seed: u64, hb: &Heartbeat, tot: &Mutex<Tot>, prop: &str) {
 }
 
 // ---------------------------------------------------------------------------------------------
+// dropsend: a message whose destructor makes a timed blocking call of its own (a lease reporting to a collector). When a timed
+// blocking send to a dead actor fails, the message is dropped wherever rsactor happens to be running at that moment - the
+// nested call made there must work like any other, and the outer call must return its error (C17, C03).
+// ---------------------------------------------------------------------------------------------
+fn round_dropsend(seed: u64, hb: &Heartbeat, tot: &Mutex<Tot>, prop: &str) {
+    use ab::*;
+    let mut r = Rng::new(seed);
+    let rt = tokio::runtime::Builder::new_multi_thread().worker_threads(2).enable_time().build().unwrap();
+    let bucket0 = hb.now_bucket();
+    let handled = Arc::new(AtomicU64::new(0));
+    let (dead, collector, cjh) = rt.block_on(async {
+        let (d, djh) = rsactor::spawn::<A>(Args { handled: Arc::new(AtomicU64::new(0)), start_ms: 0, ticks: false });
+        let _ = d.stop().await;
+        let _ = djh.await;
+        let (c, cjh) = rsactor::spawn::<A>(Args { handled: handled.clone(), start_ms: 0, ticks: false });
+        (d, c, cjh)
+    });
+    let ncalls = 2 + r.below(3);
+    let (tx, rx) = std::sync::mpsc::channel();
+    for k in 0..ncalls {
+        let (d, c, tx) = (dead.clone(), collector.clone(), tx.clone());
+        let h = rt.handle().clone();
+        let mode = r.below(3);
+        let ask = r.chance(50);
+        let call = move || {
+            let t = Instant::now();
+            let ok = if ask { d.blocking_ask(Lease(Some(c)), Some(Duration::from_secs(2))).is_err() } else { d.blocking_tell(Lease(Some(c)), Some(Duration::from_secs(2))).is_err() };
+            let _ = tx.send((k, ok, t.elapsed()));
+        };
+        match mode {
+            0 => {
+                std::thread::spawn(call);
+            }
+            1 => {
+                std::thread::spawn(move || {
+                    let _g = h.enter();
+                    call()
+                });
+            }
+            _ => {
+                rt.spawn_blocking(call);
+            }
+        }
+    }
+    let mut got = 0;
+    let mut bad = vec![];
+    let t0 = Instant::now();
+    while got < ncalls && t0.elapsed() < Duration::from_secs(12) {
+        if let Ok((k, is_err, el)) = rx.recv_timeout(Duration::from_millis(200)) {
+            got += 1;
+            if !is_err {
+                bad.push(format!("call {k} to a stopped actor returned Ok"));
+            }
+            let _ = el;
+        }
+    }
+    let stalled = hb.max_late_since(bucket0) > STALL_US;
+    // every dropped lease reported to the collector
+    std::thread::sleep(Duration::from_millis(20));
+    let reported = handled.load(Ordering::SeqCst);
+    let _ = collector.kill();
+    let _ = rt.block_on(async { tokio::time::timeout(Duration::from_secs(5), cjh).await });
+    rt.shutdown_timeout(Duration::from_secs(2));
+    let mut t = tot.lock().unwrap();
+    t.rounds += 1;
+    t.hashes.insert(mix(ncalls, seed % 8));
+    *t.nontrivial.entry("C17".into()).or_default() += 1;
+    *t.nontrivial.entry("C03".into()).or_default() += 1;
+    *t.obl.entry("C17.dead_actor").or_default() += ncalls;
+    let mut v = vec![];
+    if got < ncalls && !stalled {
+        v.push(("C17.deadline", format!("[dropsend] {} of {ncalls} timed blocking calls (2 s timeout) to a stopped actor, carrying a message whose destructor makes a timed blocking call to a live collector, had not returned after 12 s", ncalls - got)));
+    }
+    for b in bad {
+        v.push(("C17.dead_actor", format!("[dropsend] {b}")));
+    }
+    if got == ncalls && reported != ncalls && !stalled {
+        v.push(("C17.same_rules", format!("[dropsend] {ncalls} leases were dropped undelivered but the collector handled {reported} reports (the destructor's own blocking_tell(Some(500 ms)) to a live idle actor did not deliver exactly once)")));
+    }
+    for (c, m) in v {
+        if prop == "all" || prop == "C17" || prop == "C03" {
+            t.viol.push((c.into(), m, seed, "dropsend".into()));
+        }
+    }
+}
+
+// ---------------------------------------------------------------------------------------------
 // abort: the actor's JoinHandle is resolved by `JoinHandle::abort()` while strong references exist.
 // Whatever made the handle resolve, "is_alive() is false once its JoinHandle has resolved, after which
 // every send fails" (C11) and "every ask still pending on it and every later ask returns an Err" (C03).
@@ -2156,6 +2243,22 @@ mod ab {
             } else {
                 Ok(false)
             }
+        }
+    }
+    /// a message with a destructor that itself uses the (timed) blocking API: a lease that reports to a collector when dropped
+    pub struct Lease(pub Option<ActorRef<A>>);
+    impl Drop for Lease {
+        fn drop(&mut self) {
+            if let Some(c) = self.0.take() {
+                let _ = c.blocking_tell(Work(0, 0), Some(std::time::Duration::from_millis(500)));
+            }
+        }
+    }
+    impl Message<Lease> for A {
+        type Reply = u8;
+        async fn handle(&mut self, mut l: Lease, _: &ActorRef<Self>) -> u8 {
+            l.0 = None;
+            1
         }
     }
     impl Message<Work> for A {
@@ -2928,6 +3031,16 @@ pub fn cmd_mt(a: &Args) -> i32 {
                     }
                 }
             }
+            "dropsend" => {
+                let mut n = 0u64;
+                while tp.elapsed() < per_profile {
+                    n += 1;
+                    round_dropsend(mix(base, ((pi as u64) << 56) ^ n), &hb, &tot, &prop);
+                    if !tot.lock().unwrap().viol.is_empty() {
+                        break;
+                    }
+                }
+            }
             "abort" => {
                 let mut n = 0u64;
                 while tp.elapsed() < per_profile {
@@ -2994,7 +3107,7 @@ pub fn cmd_mt(a: &Args) -> i32 {
     #[cfg(feature = "f_testutils")]
     {
         let d = rsactor::dead_letter_count() - dl0;
-        if !tainted.load(Ordering::Relaxed) && profiles.iter().all(|p| p != "spawnstorm" && p != "tightrace" && p != "starve" && p != "mutualask" && p != "abort" && p != "reentrant" && p != "dropspin" && p != "metricsrace" && p != "undriven" && p != "dlrace") {
+        if !tainted.load(Ordering::Relaxed) && profiles.iter().all(|p| p != "spawnstorm" && p != "tightrace" && p != "starve" && p != "mutualask" && p != "abort" && p != "reentrant" && p != "dropspin" && p != "metricsrace" && p != "undriven" && p != "dlrace" && p != "dropsend") {
             *t.obl.entry("C13.counter").or_default() += 1;
             t.extra.insert("dead_letter_count_delta".into(), d);
             let fl = t.failures;
